@@ -199,7 +199,7 @@ def run(ctx, idx):
     # ---- d (read)
     miss = [nm for nm, p in d.inputs.items() if p.name == "NumberParameter" and "miss" in nm.lower()]
     good = [(line, t, v) for line, t, v, node, fk in r.maskstores if isinstance(v, Arr) and v.cmp is not None and any(("kw:" + m) in str(v.cmp[2]) for m in miss)]
-    rets = [v for _, v, _ in r.returns if isinstance(v, Arr)]
+    rets = R.returns_with_parameter(d, r, miss)
     ok = bool(good) and all(any(t.alias & v.alias for _, t, _ in good) for v in rets)
     keeps_file_mask = all(isinstance(v, Arr) and v.M is not None for _, _, v in good)
     ops = sorted({v.cmp[1] for _, _, v in good})
